@@ -186,6 +186,49 @@ def check_disconnect(ck, eng, rule):
               key='%s::port-survives-disconnect' % fn.qualname)
 
 
+def check_faults_are_recorded(ck, prog, tier):
+    """D7 - the latch presupposes that a fault *is* recorded: command / query report a device
+    error reply, an unexpected reply, a timeout and a USB exception through err (third mechanism
+    of the property).  The decision tables and fault rules of the C05 analysis decide exactly
+    that; their verdicts on "a failing exchange records an error and returns the failure value"
+    and "a non-empty line is never read past" are taken over here.  When that analysis cannot be
+    carried out on this tree the rule is skipped (it is an additional necessary condition; the
+    C05 check reports on its own)."""
+    from . import c05
+    from ..interp import suspended_gaps
+    sub = Check('C05', tier, ck.repo, quiet=True, out_dir=ck.out_dir)
+    from ..interp import GAP_EVENTS
+    try:
+        with suspended_gaps():
+            n0 = len(GAP_EVENTS)
+            c05.analyse(sub, prog, tier='quick')
+            inner_gaps = [g for g in GAP_EVENTS[n0:] if g[0] != 'loop']
+    except AnalysisError as exc:
+        ck.saw('faults_recorded_rule', 'skipped: %s' % str(exc)[:200])
+        return
+    if inner_gaps:
+        ck.saw('faults_recorded_rule', 'skipped: the exchange analysis met constructs it does '
+               'not model (%s)' % '; '.join('%s %s' % g[:2] for g in inner_gaps[:3]))
+        return
+    taken = ('C05-D4-success-table', 'C05-D6-failure-latched', 'C05-D6-failure-reported',
+             'C05-D5-containment',
+             'C05-D2-first-line-is-the-reply')
+    bad = [v for v in sub.violations if v['rule'] in taken]
+    ck.ob('C04-D7-faults-are-recorded', 'command/query [%d obligations of the exchange analysis, '
+          '%d taken over as failed]' % (len(sub.obligations), len(bad)), True)
+    seen = set()
+    for v in bad:
+        # one report per underlying construct (keyed by it, so that a listed finding or a defect
+        # repaired since a corpus entry was written stays distinguishable)
+        k = 'via:%s:%s' % (v['rule'], v['key'])
+        if k in seen:
+            continue
+        seen.add(k)
+        ck.ob('C04-D7-faults-are-recorded', k, False,
+              'a failing exchange does not end with an error recorded and the failure value: %s'
+              % v['message'][:500], v['loc'], key=k)
+
+
 def side_doors(ck, prog, family):
     fam_funcs = set()
     for c in family:
@@ -298,6 +341,7 @@ def run(ck, prog, tier):
     requests = analyse(ck, prog)
     for r in requests[:12]:
         ck.sample({'request_method': r})
+    check_faults_are_recorded(ck, prog, tier)
     if tier == 'thorough':
         # the base class on its own (what a user of ebb3_serial.EBB3 gets), and the inlined route
         analyse(ck, prog, use_base=True)
